@@ -68,20 +68,25 @@ ANCHORS = [
 MIN_COUNTERS = {
     "quick": {"enum_n1": 2, "enum_n2": 32, "enum_n3": 3072, "enum_n4_loopfree_identity": 4096, "enum_n4_sampled": 8192,
               "sequence_oracle_evaluations": 17000, "coupling_oracle_evaluations": 17000,
-              "dependency_graph_oracle_evaluations": 1500, "directed_cases": 28, "random_cases": 2000,
+              "dependency_graph_oracle_evaluations": 1500, "directed_cases": 30, "random_cases": 2000,
               "random_cases_with_scc": 1300, "random_cases_with_duplicated_names": 600,
               "exec_oracle_evaluations": 2300, "exec_mdochain_acyclic": 140, "exec_mdachain_acyclic": 130,
               "exec_mdachain-parallel_acyclic": 140, "exec_initchain_acyclic": 140, "exec_mdachain_cyclic": 430,
               "exec_mdachain-gs_cyclic": 450, "exec_mdachain-parallel_cyclic": 430,
-              "exec_mdachain-initdefaults_cyclic": 440, "exec_coupling_guess_passed": 500},
+              "exec_mdachain-initdefaults_cyclic": 440, "exec_coupling_guess_passed": 500,
+              "history_structures": 9500, "history_queries_judged": 400000,
+              "process_coupling_structures_judged": 4000, "inner_mda_coupling_structures_judged": 5500},
     "thorough": {"enum_n1": 2, "enum_n2": 32, "enum_n3": 3072, "enum_n4": 4096 * 16 * 24,
                  "sequence_oracle_evaluations": 1590000, "coupling_oracle_evaluations": 1590000,
-                 "dependency_graph_oracle_evaluations": 15000, "directed_cases": 28, "random_cases": 32000,
+                 "dependency_graph_oracle_evaluations": 15000, "directed_cases": 30, "random_cases": 32000,
                  "random_cases_with_scc": 20000, "random_cases_with_duplicated_names": 9000,
                  "exec_oracle_evaluations": 25000, "exec_mdochain_acyclic": 1000, "exec_mdachain_acyclic": 1000,
                  "exec_mdachain-parallel_acyclic": 1000, "exec_initchain_acyclic": 1000, "exec_mdachain_cyclic": 5000,
                  "exec_mdachain-gs_cyclic": 5000, "exec_mdachain-parallel_cyclic": 5000,
-                 "exec_mdachain-initdefaults_cyclic": 5000, "exec_coupling_guess_passed": 10000},
+                 "exec_mdachain-initdefaults_cyclic": 5000, "exec_coupling_guess_passed": 10000,
+                 # estimated from the quick ratios (thorough not re-run after adding these monitors)
+                 "history_structures": 100000, "history_queries_judged": 4000000,
+                 "process_coupling_structures_judged": 40000, "inner_mda_coupling_structures_judged": 60000},
 }
 SHARD_TIMEOUT = {"quick": 2400, "thorough": 8000}  # generous: only a cap (16 idle cores: ~25 s / ~3 min)
 
@@ -729,7 +734,8 @@ def run_enumeration(spec, rep, rng):
             for perm in perms:
                 case = {"kind": "structure", "discs": [base[p] for p in perm]}
                 disciplines = [base_discs[p] for p in perm]
-                model, ok = judge_structure(case, rep, disciplines)
+                hr = HIST["rng"] if (n <= 3 or tier == "quick" or HIST["rng"].random() < 0.1) else None
+                model, ok = judge_structure(case, rep, disciplines, hist_rng=hr)
                 rep.case(shape_signature(case, ("structure",)), bool(model.labels))
                 rep.count(counter)
                 # acyclic graphs are rare among all digraphs: execute them 6 times more often
@@ -820,7 +826,7 @@ def run_random(spec, rep, rng):
             return
         case = gen_random_case(rng)
         disciplines = build_disciplines(case)
-        model, ok = judge_structure(case, rep, disciplines)
+        model, ok = judge_structure(case, rep, disciplines, hist_rng=HIST["rng"])
         rep.case(shape_signature(case, ("structure",)), bool(model.labels))
         rep.count("random_cases")
         if any(len(g) > 1 for g in model.sccs):
@@ -860,6 +866,9 @@ def directed_cases():
                                               _d("C", ["a2", "b2"], ["c"])],
         "single": [_d("Only", ["x"], ["y"])],
         "single-self-coupled": [_d("Only", ["x", "y"], ["y"])],
+        # self-looped discipline outside any larger cycle, feeding a 2-cycle and a sink (seeded change C08_4)
+        "self-loop-feeding-scc-and-sink": [_d("O", ["a", "b", "s"], ["o"]), _d("B", ["a"], ["b"]), _d("S", ["s", "x"], ["s"]),
+                                           _d("A", ["b", "s"], ["a"])],
         "nested-cycles": [_d("A", ["c"], ["a"]), _d("B", ["a", "d"], ["b"]), _d("C", ["b"], ["c"]), _d("D", ["b"], ["d"]),
                           _d("E", ["d", "x"], ["e"])],
         "long-chain-into-scc": [_d("Z", ["q"], ["z"]), _d("Q", ["p", "r"], ["q"]), _d("R", ["q"], ["r"]),
@@ -874,7 +883,7 @@ def run_directed(rep, rng):
         for order in orders:
             case = {"kind": "structure", "label": label, "discs": [discs[i] for i in order]}
             disciplines = build_disciplines(case)
-            model, ok = judge_structure(case, rep, disciplines)
+            model, ok = judge_structure(case, rep, disciplines, hist_rng=HIST["rng"])
             rep.case(shape_signature(case, ("structure",)), bool(model.labels))
             judge_dependency_graph(case, rep, disciplines, model)
             run_exec_variants({"label": label, "discs": case["discs"]}, rep, model, rng, how_many=9)
@@ -884,9 +893,13 @@ def run_directed(rep, rng):
 
 
 # --------------------------------------------------------------------------- entry points
+HIST = {"rng": np.random.default_rng(0)}  # generator of the query histories (separate stream)
+
+
 def run_shard(spec, rep):
     logging.getLogger("gemseo").setLevel(logging.CRITICAL)
     rng = np.random.default_rng(spec["seed"])
+    HIST["rng"] = np.random.default_rng(spec["seed"] + 12345)
     if spec.get("shard", 0) == 0:
         run_directed(rep, rng)
     run_enumeration(spec, rep, rng)
